@@ -410,6 +410,10 @@ func (d *dataPlane) SetKey(key []byte) error {
 func (d *dataPlane) SetPortRange(start, end uint16) {
 	d.dispatchedPortStart = start
 	d.dispatchedPortEnd = end
+	// The underlay providers do the actual port translation; they need to know the range.
+	for _, u := range d.underlays {
+		u.SetDispatchPorts(start, end, topology.EndhostPort)
+	}
 }
 
 // AddInternalInterface sets the interface the data-plane will use to send/receive traffic in the
